@@ -10,6 +10,7 @@ for `Entry.vVerify` under the guards found in the source.
 -/
 import NotationModel.Props.C12
 import NotationModel.Props.C01_Verify
+import NotationModel.Props.C01_VerifyBlob
 
 set_option linter.unusedSimpArgs false
 set_option linter.unusedVariables false
@@ -153,6 +154,55 @@ theorem source_Verify_refines_model_c12 (env : EnvV) (v : VerifierV) (desc : oci
     rw [hv]
     cases (Verify env v desc signature opts).2.isNone <;>
       simp [modelObs, vVerify, verifyWithStmt, viewObs, okWith, failWith]
+
+/-! ### the same discipline for the translated `(*verifier).VerifyBlob` (`Generated/SrcVerifyBlobV.lean`) -/
+section Blob
+open NotationModel.Src.verifier.blob
+open NotationModel.C01.TieB (viewB toInputB lookupB)
+
+/-- the statement class of C12's model that a configuration of `VerifyBlob` falls in -/
+def stmtOfB (v : VerifierB) (opts : OptsB) : Stmt :=
+  match v.blobTrustPolicyDoc with
+  | none => .missing
+  | some d =>
+    if (lookupB d opts).2.isSome then .noMatch
+    else if reflect.DeepEqual (Src.trustpolicy.GetVerificationLevel (GoLite.deref (lookupB d opts).1).SignatureVerification).1
+        Src.trustpolicy.LevelSkip then .skip
+    else .enforce
+
+/-- TIE (translated source), C12's discipline for blobs: whatever the oracles answer (the policy document's two lookups,
+`processSignature`, the decoding of the payload, the caller's descriptor generator - failing or not), `VerifyBlob` returns
+* no outcome and an error when the verifier has no blob policy document or the lookup fails,
+* otherwise ALWAYS an outcome, whose error is set exactly when an error is returned (so also when no digest algorithm is
+  bound to the signature algorithm and when the descriptor cannot be generated). -/
+theorem source_VerifyBlobWhole_refines_model_consistency (env : EnvB) (v : VerifierB)
+    (gen : digest.Algorithm → ocispec.Descriptor × Option GoLite.Err)
+    (signature : Src.«notation».SigBlob) (opts : OptsB)
+    (hErr : ∀ a b c d e f g o, (env.processSignature a b c d e f g o).2.Error = o.Error)
+    (hPtr : ∀ d, v.blobTrustPolicyDoc = some d → (lookupB d opts).2 = none → (lookupB d opts).1.isSome = true) :
+    let r := viewB (VerifyBlob env v gen signature opts)
+    match stmtOfB v opts with
+    | .missing | .noMatch => r = (false, none)
+    | .skip | .enforce => r.2 = some (!r.1) := by
+  have h := C01.TieB.source_VerifyBlobWhole_refines_model env v gen signature opts hErr hPtr
+  unfold stmtOfB
+  cases hd : v.blobTrustPolicyDoc with
+  | none => simp only [hd] at h ⊢; exact h
+  | some d =>
+    simp only [hd] at h ⊢
+    by_cases hp : (lookupB d opts).2.isSome = true
+    · simp only [hp, if_true] at h ⊢; exact h
+    · simp only [hp, Bool.false_eq_true, if_false] at h ⊢
+      have hc := core_consistent (toInputB env gen signature opts (GoLite.deref (lookupB d opts).1))
+      by_cases hs : reflect.DeepEqual (Src.trustpolicy.GetVerificationLevel (GoLite.deref (lookupB d opts).1).SignatureVerification).1
+          Src.trustpolicy.LevelSkip = true
+      · simp only [hs, if_true]; rw [h]; exact hc
+      · simp only [hs, Bool.false_eq_true, if_false]; rw [h]; exact hc
+
+/-- a failing descriptor generator (an unreadable blob) is a failure after policy selection: outcome with its error set -/
+example : viewB (VerifyBlob (C01.TieB.envB .AlgorithmES384 C01.TieB.blobDesc) C01.TieB.vB
+    (fun _ => (default, some ⟨"read error"⟩)) ⟨0⟩ (C01.TieB.optsB "p" [])) = (false, some true) := by decide
+end Blob
 
 /-! non-vacuity: the four statement classes on concrete oracles -/
 section Examples
